@@ -1,7 +1,7 @@
 """C18 - acyclic_unroll removes cycles and preserves stable states."""
 from rv.gen import circuits as G
 from rv.oracle import sim
-from rv.oracle.graphdefs import has_cycle
+from rv.oracle.graphdefs import has_cycle, reach
 from rv.oracle.sim import Net
 from rv.props._util import own_lint
 
@@ -60,7 +60,7 @@ def gen(rng, ctx):
     if tmpl == "dense":
         ni = rng.randint(1, 2)
         ng = rng.randint(4, 9)
-    cd = G.rand_circuit(rng, ni, ng, max_fanin=3, p_const=0.15, p_input_output=0.15, p_const_output=0.1, n_outputs=rng.randint(1, 3))
+    cd = G.rand_circuit(rng, ni, ng, max_fanin=3, p_const=0.15, p_input_output=0.15, p_const_output=0.1, n_outputs=rng.randint(1, 3), allow_x=rng.random() < 0.25)
     nodes = [n for n, _, _ in cd["nodes"]]
     tps = G.cd_types(cd)
     multi = [n for n in nodes if tps[n] in G.GATESN]
@@ -156,6 +156,9 @@ def check(case, ctx):
         if f is None or f not in net.types or f in aux.values():
             ctx.violation("aux_input_unidentified", f"extra input {a!r} is not the auxiliary input of a distinct circuit node")
             return
+        if f not in reach(net.preds, [f]):
+            ctx.violation("aux_input_for_node_outside_cycles", f"extra input {a!r} stands for {f!r} ({net.types[f]}), which lies on no cycle of the circuit")
+            return
         aux[a] = f
     ctx.count(f"cut_nodes:{len(aux) if len(aux) < 4 else '4+'}")
     if cyc and not aux:
@@ -165,6 +168,16 @@ def check(case, ctx):
     fixed = {i: pos[i] for i in net.inputs()}
     for a, f in aux.items():
         fixed[a] = pos[f]
+    for xn, t in an.types.items():
+        if t == "x":
+            # every copy of an unknown-value constant stands for the original one (an opaque source)
+            cands = sorted((n for n in net.types if net.types[n] == "x" and xn.endswith(n)), key=len, reverse=True)
+            if not cands:
+                ctx.violation("x_constant_unidentified", f"`x` node {xn!r} of the result is not a copy of an `x` node of the circuit")
+                return
+            fixed[xn] = pos[cands[0]]
+    if net.has_x():
+        ctx.count("with_x_constant")
     try:
         av, _ = sim.functions(an, [], fixed=fixed, k=k)
     except ValueError as e:
@@ -181,5 +194,5 @@ def check(case, ctx):
 
 
 def gates(counters, table, tier):
-    need = ["tmpl:dense", "tmpl:back", "tmpl:latch", "tmpl:ring", "tmpl:two_scc", "cyclic", "has_stable_state", "no_stable_state", "multiple_stable_states_per_input", "cut_nodes:1", "cut_nodes:2", "output_is_input", "tmpl:deep_ring"]
+    need = ["tmpl:dense", "tmpl:back", "tmpl:latch", "tmpl:ring", "tmpl:two_scc", "cyclic", "has_stable_state", "no_stable_state", "multiple_stable_states_per_input", "cut_nodes:1", "cut_nodes:2", "output_is_input", "tmpl:deep_ring", "with_x_constant"]
     return [f"{k} seen {counters.get(k, 0)} times" for k in need if counters.get(k, 0) < 5]
